@@ -69,6 +69,33 @@ fn check(states: &[St], policy: LoadBalancingAlgorithms, key: Option<u64>) -> Re
     Ok(())
 }
 
+/// Affinity across a change of eligibility: the list is built in state A and asked once for the key (policies that build
+/// their tables lazily build them now); then the backends move to state B (status / health only) and the same key is
+/// asked four times: the answers must be eligible in B and all the same.
+fn check_transition(a: &[St], b: &[St], policy: LoadBalancingAlgorithms, key: u64) -> Result<(), String> {
+    let mut l = build(a, policy);
+    let _ = l.next_available_backend_with_key(Some(key));
+    for (i, s) in b.iter().enumerate() {
+        let mut be = l.backends[i].borrow_mut();
+        be.status = match s.status { 0 => BackendStatus::Normal, 1 => BackendStatus::Closing, _ => BackendStatus::Closed };
+        be.health.status = if s.unhealthy { HealthStatus::Unhealthy } else { HealthStatus::Healthy };
+    }
+    let any_primary = b.iter().any(|s| !s.backup && s.eligible());
+    let any_open = b.iter().any(|s| s.fail_open());
+    let mut first: Option<usize> = None;
+    for round in 0..4 {
+        match l.next_available_backend_with_key(Some(key)) {
+            None => if any_primary || any_open { return Err(format!("after the change, round {round}: no backend returned although one may serve")); },
+            Some(x) => {
+                let i = index_of(&l, &x).ok_or_else(|| "the backend returned is not a member of the list".to_string())?;
+                if any_primary && !b[i].eligible() { return Err(format!("after the change, round {round}: backend #{i} {:?} was chosen although an eligible one exists", b[i])); }
+                match first { None => first = Some(i), Some(f) if f != i => return Err(format!("after the change, round {round}: affinity key {key:#x} moved from backend #{f} to #{i} while nothing changed any more")), _ => {} }
+            }
+        }
+    }
+    Ok(())
+}
+
 fn main() {
     let thorough = std::env::args().nth(1).map(|s| s == "thorough").unwrap_or(false);
     let n = if thorough { 4 } else { 3 };
@@ -97,6 +124,20 @@ fn main() {
             idx[k] = 0;
         }
     }
+    // transitions (HRW, Maglev): 4 primary backends, each {healthy, unhealthy, closed} before and after
+    if failures.is_empty() {
+        let tper = [St { status: 0, unhealthy: false, failed: false, backup: false }, St { status: 0, unhealthy: true, failed: false, backup: false }, St { status: 2, unhealthy: false, failed: false, backup: false }];
+        let m = 4usize;
+        let total = tper.len().pow(m as u32);
+        'tr: for ia in 0..total { for ib in 0..total {
+            let dec = |mut x: usize| -> Vec<St> { (0..m).map(|_| { let s = tper[x % 3]; x /= 3; s }).collect() };
+            let (a, b) = (dec(ia), dec(ib));
+            for p in [LoadBalancingAlgorithms::Hrw, LoadBalancingAlgorithms::Maglev] { for key in [0x9e3779b97f4a7c15u64, 7, 0xc12] {
+                count += 1;
+                if let Err(e) = check_transition(&a, &b, p, key) { failures.push((format!("backends first {a:?}, then {b:?}, policy {p:?}, key {key:#x}"), e)); break 'tr; }
+            } }
+        } }
+    }
     let fjson: Vec<String> = failures.iter().map(|(i, o)| format!("{{\"input\": {i:?}, \"observed\": {o:?}}}")).collect();
-    println!("{{\"bound\": \"{n} backends in every combination of 24 per-backend states x 6 policies x 3 affinity keys, 4 selections each, plus every sticky id\", \"states\": {count}, \"pairs\": {count}, \"nontrivial_pairs\": {count}, \"failures\": [{}]}}", fjson.join(", "));
+    println!("{{\"bound\": \"{n} backends in every combination of 24 per-backend states x 6 policies x 3 affinity keys, 4 selections each, plus every sticky id; plus, for HRW and Maglev, every change of 4 backends between healthy / unhealthy / closed states with the key asked before and 4 times after\", \"states\": {count}, \"pairs\": {count}, \"nontrivial_pairs\": {count}, \"failures\": [{}]}}", fjson.join(", "));
 }
